@@ -295,6 +295,72 @@ def reaction_total(r, incr, nsteps):
     return f * r["total"]
 
 
+# alternative reactants (documented syntax `phase target formula amount`): the reactant shares an element with the phase,
+# so adding or removing it can reach the target; every element exists in the three databases used
+ALT_FOR = {"Gypsum": ["CaSO4", "CaCl2", "Na2SO4"], "Anhydrite": ["CaSO4", "CaCl2", "Na2SO4"],
+           "Calcite": ["CaCO3", "CaCl2", "Na2CO3", "NaHCO3"], "Aragonite": ["CaCO3", "CaCl2", "Na2CO3"],
+           "Celestite": ["SrCl2", "Na2SO4"], "Barite": ["Na2SO4", "K2SO4"], "Strontianite": ["SrCl2", "Na2CO3"],
+           "Magnesite": ["MgCl2", "Na2CO3"], "Dolomite": ["CaCl2", "MgCl2", "Na2CO3"]}
+ALT_ACIDS = ["HCl", "H2SO4"]
+ALT_BASES = ["NaOH", "KOH", "Na2CO3"]
+
+
+def _fix_ph(draw, ph_now, force_other_than=None):
+    """pseudo-phase Fix_pH (H+ = H+, log_k 0; defined in the PHASES block of every input) with an acid or a base as
+    alternative reactant and a target on the side the reactant can reach from ph_now"""
+    pool = [a for a in ALT_ACIDS + ALT_BASES if a != force_other_than]
+    alt = draw(st.sampled_from(pool))
+    if alt in ALT_BASES:
+        target = min(ph_now + draw(cg.uni(0.5, 2.0, 2)), 11.5)
+    else:
+        target = max(ph_now - draw(cg.uni(0.5, 2.0, 2)), 3.0)
+    return {"name": "Fix_pH", "si": -float("%.3g" % target), "moles": 10.0, "opt": "", "alt": alt}
+
+
+@st.composite
+def pp_variant(draw, prev):
+    """a new EQUILIBRIUM_PHASES definition with the *same phase list* as the previous one of the history and one thing
+    changed: another alternative formula, a formula added, a formula removed, or another amount.  The engine re-uses the
+    equations of the previous calculation when it judges the model unchanged (prep.cpp check_same_model), and the
+    alternative formula is part of that judgement - only such consecutive set-ups exercise it."""
+    phases = [dict(p) for p in prev["phases"]]
+    with_alt = [i for i, p in enumerate(phases) if p["alt"]]
+    can_add = [i for i, p in enumerate(phases) if not p["alt"] and not p["opt"] and p["name"] in ALT_FOR]
+    removable = [i for i in with_alt if phases[i]["name"] != "Fix_pH"]     # Fix_pH without formula would add bare H+
+    kind = draw(st.sampled_from(["alt_changed", "alt_changed", "alt_changed", "alt_added", "alt_removed", "amount_changed"]))
+    if kind == "alt_changed" and not with_alt:
+        kind = "alt_added"
+    if kind == "alt_added" and not can_add:
+        kind = "alt_changed" if with_alt else "amount_changed"
+    if kind == "alt_removed" and not removable:
+        kind = "alt_changed" if with_alt else "amount_changed"
+    if kind == "alt_changed":
+        i = draw(st.sampled_from(with_alt))
+        p = phases[i]
+        if p["name"] == "Fix_pH":
+            phases[i] = draw(_fix_ph_strategy(-p["si"], p["alt"]))
+        else:
+            p["alt"] = draw(st.sampled_from([a for a in ALT_FOR[p["name"]] if a != p["alt"]]))
+            if draw(st.booleans()):
+                p["si"] = draw(cg.uni(-1.5, 0.0, 2))
+    elif kind == "alt_added":
+        p = phases[draw(st.sampled_from(can_add))]
+        p["alt"] = draw(st.sampled_from(ALT_FOR[p["name"]]))
+        p["moles"] = max(p["moles"], 0.01)
+    elif kind == "alt_removed":
+        phases[draw(st.sampled_from(removable))]["alt"] = ""
+    else:
+        p = phases[draw(st.integers(0, len(phases) - 1))]
+        p["moles"] = draw(st.one_of(st.just(10.0), cg.logu(1e-3, 10.0, 3))) if p["alt"] else \
+            draw(st.one_of(st.just(0.0), st.just(10.0), cg.logu(1e-6, 10.0, 3)))
+    return {"phases": phases, "variant": kind}
+
+
+@st.composite
+def _fix_ph_strategy(draw, ph_now, other_than=None):
+    return _fix_ph(draw, ph_now, other_than)
+
+
 @st.composite
 def pp(draw, db, profile, has_fe, ph0):
     cfg = DB[db]
@@ -317,22 +383,16 @@ def pp(draw, db, profile, has_fe, ph0):
         if g != "O2(g)" or True:
             phases.append({"name": g, "si": draw(cg.uni(-3.5, -0.3, 3)) if g == "CO2(g)" else draw(cg.uni(-3.0, -0.7, 3)),
                            "moles": draw(st.sampled_from([10.0, 1.0, 0.01, 0.0])), "opt": "", "alt": ""})
-    # alternative formula (reactant added to reach the target of another phase)
+    # alternative formula (reactant added or removed to reach the target of the phase)
     k = draw(st.integers(0, 9))
-    if k == 0 and profile != "c03":
-        for p in phases:
-            if p["name"] == "Gypsum" and not p["opt"]:
-                p["alt"] = "CaSO4"
-                p["moles"] = max(p["moles"], 0.01)
-                break
-            if p["name"] == "Calcite" and not p["opt"]:
-                p["alt"] = "CaCO3"
-                p["moles"] = max(p["moles"], 0.01)
-                break
-    elif k == 1 and profile != "c03":
-        up = draw(st.booleans())
-        target = min(ph0 + draw(cg.uni(0.5, 2.0, 2)), 11.5) if up else max(ph0 - draw(cg.uni(0.5, 2.0, 2)), 3.0)
-        phases.append({"name": "Fix_pH", "si": -float("%.3g" % target), "moles": 10.0, "opt": "", "alt": "NaOH" if up else "HCl"})
+    if k in (0, 1) and profile != "c03":
+        cand = [p for p in phases if p["name"] in ALT_FOR and not p["opt"]]
+        if cand:
+            p = cand[0]
+            p["alt"] = draw(st.sampled_from(ALT_FOR[p["name"]]))
+            p["moles"] = max(p["moles"], 0.01)
+    elif k in (2, 3) and profile != "c03":
+        phases.append(_fix_ph(draw, ph0))
     return {"phases": phases}
 
 
@@ -619,6 +679,24 @@ def case_strategy(draw, profile="c02", dbs=("phreeqc.dat",)):
     resolved = {}          # kind -> definition in force (own or carried), for pp and gas
     for k in range(nsteps):
         stp = {"mode": draw(st.sampled_from(["batch", "batch", "cells"])), "incr": draw(st.booleans())}
+        # ---- "same phase list, one thing changed" step: reacts the previous product with a variant of the previous
+        # EQUILIBRIUM_PHASES definition; the other reactants are carried over or left out, so that nothing between the
+        # two reaction calculations (no initial exchange / surface / gas calculation) forces the engine to rebuild its model
+        if profile == "c02" and k > 0 and "pp" in prev_kinds and isinstance(resolved.get("pp"), dict) and \
+                draw(st.integers(0, 2)) == 0:
+            stp["src"] = {"kind": "sol", "from": "prev"}
+            stp["pp"] = draw(pp_variant(resolved["pp"]))
+            stp["pp_variant"] = stp["pp"].pop("variant")
+            for kd in KINDS:
+                if kd in prev_kinds and kd not in ("pp", "reaction") and draw(st.booleans()):
+                    stp[kd] = "carry"
+            resolved["pp"] = stp["pp"]
+            for kd in ("gas",):
+                if kd not in stp:
+                    resolved.pop(kd, None)
+            prev_kinds = {kd for kd in KINDS if kd in stp and kd != "reaction"}
+            steps.append(stp)
+            continue
         # ---- solution or mix
         refs = list(range(1, ns + 1)) + (["prev"] if k > 0 else [])
         if k > 0 and draw(st.integers(0, 3)) > 0:
